@@ -13,7 +13,7 @@ from gpmc import cfg, sched
 from gpmc.core import REPO, HarnessError
 
 
-MAX_POINTS_BOUND2 = 160
+MAX_POINTS_BOUND2 = 90
 
 
 def _outcome(fn):
@@ -169,9 +169,10 @@ def make(calls, files, site, quick=None, same=True, triple=None, files_thorough=
         if tier == 'thorough' and files_thorough:
             # scheduling points also inside the modules the calls descend into
             out = [dict(c, deep=True) for c in out]
-        if parts > 1:
-            # long calls: the schedule space of one pair is partitioned by the position of the first preemption
-            out = [dict(c, part=[k, parts]) for c in out for k in range(parts)]
+        np_ = max(parts, 8) if tier == 'thorough' else parts
+        if np_ > 1:
+            # long calls / two preemptions: the schedule space of one pair is partitioned by the position of the first preemption
+            out = [dict(c, part=[k, np_]) for c in out for k in range(np_)]
         return out
 
     def ev(case, rec):
